@@ -12,19 +12,22 @@ from harness import common as C
 PROP = "C04"
 COQ_TARGETS = ["Props/C04.vo", "Extract/ExtractC04.vo"]
 
-# Which behaviour the tree under test is expected to have.  False = the code as it is
-# (duplicate detection orders groups by their unsorted text and compares tags by the
-# case-sensitive short form or the folded original text: findings C04-F1/F2 are expected).
-# True = the repaired code (canonical folded sort key + folded short-form equality): the
-# model is run with fixed=true and C04-F1/F2 failures are no longer excused.
-FIXED = True   # fix: commits 7597eca, 2492808, cbb8087 are in /repo
+# Which state of the duplicate check the tree under test is expected to have.
+# True  = the code as it is: /repo contains fix commits 7597eca (canonical case-folded sort key), 2492808 (tag equality =
+#         equality of the case-folded short form), cbb8087 (Def-expand compared up to member order) and 3e47c8c
+#         (repeated groups of empty groups reported instead of IndexError); the model runs as mode_of true and no
+#         failure is excused.
+# False = the behaviour BEFORE those commits (model mode_of false); only useful to re-check a tree with the fixes
+#         reverted: the former findings C04-F1 / C04-F2 (now listed under "fixed" in known_findings.json) are then
+#         classified instead of being reported as new violations.
+FIXED = True
 
 TRUSTED = [
     "Model/Dups.v is a hand transcription of GroupValidator.check_tag_level_issue / check_multiple_unique_tags_exist / "
     "check_for_required_tags / validate_duration_tags / _check_for_duplicate_groups(_recursive), HedGroup._sorted / "
     "__str__ / get_all_tags / get_all_groups, HedTag.__eq__, HedString.find_top_level_tags and "
     "DefValidator.validate_onset_offset / _handle_onset_or_offset / HedGroup._get_def_tags_from_group; tied by the "
-    "correspondence run (internal error kinds in order, published codes, IndexError)",
+    "correspondence run (multisets of internal error kinds, published codes, exceptions)",
     "Gen/C04Codes.v (kind -> published code) is regenerated from hed/errors/error_messages.py, error_types.py, "
     "model_constants.py and group_util.py on every run (ast, fail closed)",
     "each tag enters the model as (short_tag, short_tag.casefold(), org_tag.casefold(), tagGroup, topLevelTagGroup, "
@@ -41,10 +44,17 @@ ASSUMPTIONS = [
     "oracle on the implementation only (testing); C04_onset_invariant_order (Onset/Inset/Offset shape rule) assumes that "
     "the Def names resolve (t_def = 0, guaranteed by the basic phase) -- without it the rule is order dependent "
     "(C04_onset_order_refuted_unresolved_def, only reachable by calling validate_onset_offset directly)",
-    "positive duplicate theorems hold for the REPAIRED variant (fixed=true: canonical folded sort key, folded short-form "
-    "equality); for the code as it is they are refuted by kernel-evaluated witnesses (C04-F1, C04-F2)",
-    "well-formedness hypothesis of the positive theorems: folded short forms are non-empty and free of ',()' (guaranteed "
-    "by the parser; checked on every generated case), and no empty group (otherwise the check raises IndexError)",
+    "the duplicate theorems named *_fixed / never_raises are about the code as it is (model mode_of true = fix commits "
+    "7597eca, 2492808, 3e47c8c); the theorems named *_refuted_* and C04_dup_raised_on_empty_group_before_fix_3e47c8c are "
+    "the record of the repaired defects (behaviour before those commits, former findings C04-F1/F2) and say nothing "
+    "about the current implementation",
+    "well-formedness hypothesis of the order/spelling theorems for the duplicate check: folded short forms are non-empty "
+    "and free of ',()' (guaranteed by the parser; checked on every generated case); no hypothesis about empty groups any "
+    "more (total since 3e47c8c)",
+    "spelling invariance of the placement, unique/required, Duration/Delay and Onset rules holds by construction of the "
+    "model (these rules never read the spelling fields); that another valid spelling of a tag yields the same folded short "
+    "form / base tag / attributes is property C03's statement and an INPUT here; the session theorems likewise hold by "
+    "construction (the modelled rules keep no state)",
 ]
 
 KINDS = ["GROUP_EMPTY", "TAG_GROUP_TAG", "TOP_LEVEL_TAG", "TOP_LEVEL_TAG_DEFINITION", "TOP_LEVEL_TAG_TEMPORAL",
@@ -1071,6 +1081,10 @@ def nontrivial(case):
     return ("(" in s or s.count(",") >= 1)
 
 
+def raised(codes):
+    return any(c.startswith("EXN:") for c in codes)
+
+
 def oracle_history(case, r, res, counts):
     """The verdict of an annotation is a function of the annotation: whatever the schema object has seen before, it
     must equal the verdict of a schema object without history (and so must the verdict of every rewrite)."""
@@ -1079,6 +1093,9 @@ def oracle_history(case, r, res, counts):
         for y, cy in hist:
             seq.append(y)
             counts["history_texts"] += 1
+            if raised(cy):
+                counts["raises"] += 1
+                res.report("never-raises", {"text": y, "sequence": list(seq), "crash": True}, f"validate({y!r}) raised {cy}")
             if cy != fresh:
                 counts["history_failures"] += 1
                 res.report("verdict-depends-on-history-or-spelling",
@@ -1094,12 +1111,17 @@ def oracle(case, r, res, counts):
         return oracle_history(case, r, res, counts)
     x, cx = r["base"], r["full"]
     top = r["direct"].get("top")
-    if any(c.startswith("EXN:") for c in cx) and case["stream"] != "malformed":
-        res.report("validate-raises", {"text": x}, str(cx))
     seq = r.get("prefix", []) + [x]
+    # an exception inside validation is a violation of its own (never an outcome that may compare equal)
+    if raised(cx):
+        counts["raises"] += 1
+        res.report("never-raises", {"text": x, "sequence": list(seq), "crash": True}, f"validate({x!r}) raised {cx}")
     for y, cy in r["rewrites"]:
         counts["pairs"] += 1
         seq.append(y)
+        if raised(cy):
+            counts["raises"] += 1
+            res.report("never-raises", {"text": y, "sequence": list(seq), "crash": True}, f"validate({y!r}) raised {cy}")
         if cx != cy:
             fid = classify(x, y, cx, cy, top)
             counts["diff_" + str(fid)] += 1
@@ -1201,22 +1223,22 @@ def correspond(cases_direct, res, counts):
 
 def run(tier, seed, res, model_ok=True, proof_ok=True):
     rng = random.Random(seed)
-    n = {"quick": 260, "thorough": 4200}[tier]
+    n = {"quick": 200, "thorough": 4200}[tier]
     if not proof_ok:
         n *= 3
     cases = copy.deepcopy(CORPUS)
     streams = ["valid"] * 3 + ["temporal"] * 3 + ["case"] * 2 + ["invalid"] * 2 + ["planted"] * 3
     for i in range(n * len(streams)):
         cases.append(gen_case(rng, streams[i % len(streams)]))
-    for _ in range(n * 3):
+    for _ in range(n * 2):
         cases.append(gen_collide(rng))
     for _ in range(n * 2):
         cases.append(gen_twin(rng))
     spellings()
-    for _ in range(n * 3 if tier == "quick" else n):
+    for _ in range(n * 2 if tier == "quick" else n):
         cases.append(gen_tgroup(rng, all_orders=(tier != "quick")))
     spellings()  # needed by the history generator
-    for _ in range(n // 2):
+    for _ in range(n // 3):
         cases.append(gen_history(rng))
     for _ in range(n * 2):
         cases.append(gen_malformed(rng))
@@ -1264,6 +1286,7 @@ def run(tier, seed, res, model_ok=True, proof_ok=True):
         "correspondence_cases": counts["corr"] if model_ok else 0,
         "histogram": {"streams": dict(hist), "depth": dict(dhist), "rewrite_pairs": counts["pairs"],
                       "history_texts": counts["history_texts"], "history_failures": counts["history_failures"],
+                      "validations_that_raised": counts["raises"],
                       "planted_checked": counts["planted_checked"],
                       "metamorphic_failures_by_class": {k[5:]: v for k, v in counts.items() if k.startswith("diff_")},
                       "kinds_seen_in_direct_calls": {k[5:]: v for k, v in counts.items() if k.startswith("kind_")},
@@ -1278,6 +1301,16 @@ def replay(payload):
     if x is None:
         print("no concrete input in replay:", str(payload.get("detail", ""))[:500])
         return 1
+    if case.get("crash"):
+        new_session()
+        got = None
+        for y in case.get("sequence") or [x]:
+            got = impl_full(y)
+        print("codes(%r) = %s" % (x, got))
+        if raised(got):
+            print("FAILS: never-raises")
+            return 1
+        return 0
     if "annotation" in case and "sequence" in case:
         # history case: the sequence on one new schema object, the annotation on another one
         new_session()
